@@ -2,7 +2,7 @@
 # tools/try_seeded.sh <patch.diff> <check id> [more check ids...]
 # Applies a seeded change to /repo, runs the given quick checks, restores /repo.
 # Prints one line per check: "<id>: DETECTED (<oracle>)" or "<id>: missed".
-PATCH="$1"; shift
+PATCH="$(readlink -f "$1")"; shift
 cd /repo || exit 2
 if ! git diff --quiet; then echo "refusing: /repo has uncommitted changes" >&2; exit 2; fi
 restore() { git -C /repo checkout -- . ; }
